@@ -3,6 +3,9 @@ use vharness::cli::{quiet_panics, Args};
 fn main() {
     let a = Args::parse();
     quiet_panics();
+    if ["mac", "macreplay", "macmc", "nbwalk", "awalk", "certwalk"].contains(&a.cmd.as_str()) {
+        vharness::cli::spawn_watchdog();
+    }
     // a panic that escapes the recorder itself (not the code under test, whose panics are trace events) is a tool
     // error: say where it happened
     let r = std::panic::catch_unwind(std::panic::AssertUnwindSafe(|| dispatch(&a)));
